@@ -167,7 +167,9 @@ theorem fam_fail (cfg : Cfg) (now : Int) (c : Coll) (query proj : Val) (update :
   | some u =>
     simp only at h ⊢
     split at h
-    · cases h; exact .inl (Near.refl _ _)
+    · rename_i ht
+      simp only [ht]
+      exact fam_go_fail cfg now c query proj (some u) upsert sort after c' e h
     · rename_i ht
       simp only [ht]
       split at h
